@@ -96,7 +96,19 @@ def gen_op(ck: Check, pool: dict[str, Any]) -> dict[str, Any]:
         ck.histogram["op/mkExt"] += 1
         text, _ = fragment(rng)
         return {"op": "mkExt", "text": pool["simple"]}
-    if 0.60 <= r < 0.70:
+    if 0.60 <= r < 0.65:
+        ck.histogram["op/hdrdet"] += 1
+        nd = rng.randint(1, 4)
+        names = ["".join(rng.choice("ABCDEFGHJKLMNP") for _ in range(5)) for _ in range(nd)]
+        amts = [rng.randint(0, 9999) for _ in range(nd)]
+        hw = rng.choice([3, 5])
+        hdr = f"       01  HDR.\n           05  H-TYPE      PIC X(1).\n           05  H-COUNT     PIC 9({hw}).\n"
+        det = "       01  DET.\n           05  D-TYPE      PIC X(1).\n           05  D-NAME      PIC X(5).\n           05  D-AMT       PIC 9(4).\n"
+        data = ("H" + str(nd).zfill(hw)).encode("cp037") + b"".join(("D" + nm + f"{a:04d}").encode("cp037") for nm, a in zip(names, amts))
+        return {"op": "hdrdet", "hdr": hdr, "det": det, "data": data.hex(), "hdr_fields": ["H-TYPE", "H-COUNT"], "det_fields": ["D-NAME", "D-AMT"],
+                "keep": rng.random() < 0.3,
+                "_want": {"header": [repr("H"), f"Decimal('{nd}')"], "details": [[repr(nm), f"Decimal('{a}')"] for nm, a in zip(names, amts)]}}
+    if 0.65 <= r < 0.70:
         ck.histogram["op/wbread"] += 1
         n = rng.randint(2, 4)
         cols = [f"col{j}" for j in range(n)]
@@ -166,6 +178,12 @@ def explore(ck: Check, n_hist: int, max_len: int) -> None:
                         f"probe {probe['op']} after {len(ops)} earlier operations differs from the same probe in a fresh process "
                         f"(key {diff!r}: {str(got.get(diff))[:120]} vs {str(ref.get(diff))[:120]})", inp)
             for o, res in zip(ops + [probe], outs + [got]):
+                if o["op"] == "hdrdet":
+                    ck.oracle_evaluations += 1
+                    if res.get("header") != o["_want"]["header"] or res.get("details") != o["_want"]["details"]:
+                        ck.fail("history-dependent:hdrdet", f"header/detail file: the header row kept while the sheet moved on to the detail "
+                                f"schema yields {res.get('header')} (written {o['_want']['header']}); details {str(res.get('details'))[:80]} "
+                                f"(written {str(o['_want']['details'])[:80]})", {"op": public(o)})
                 if o["op"] == "wbread":
                     ck.oracle_evaluations += 1
                     for rd in res.get("reads", []):
